@@ -875,9 +875,60 @@ def reader_keywords(mod: Any, fn: ast.AST, fold: Folder) -> Tuple[Set[str], Set[
     return kws, unimpl
 
 
+# extra fields the guard of a flag keyword may test, confirmed by reading (one line of reason each)
+FLAG_EXTRA_GUARD = {
+    'cc_usingcombinedfile': {'caption_type'},      # Valve's own writer: a combined file is only recorded for an enabled caption; not representable otherwise
+}
+
+
+def m2_choreo_flags(ctx: Any, mod: Any) -> None:
+    """A bare keyword that the reader turns into `<field> = True` is the text form of that one boolean: the writer has to emit it whenever
+    the field is set.  The guard around its write may therefore test that field only (plus the frozen, explained exceptions above); a guard
+    that also asks for another flag loses the field for every event that has the one without the other."""
+    rd, wr = mod.methods('Event')['parse_text'], mod.methods('Event')['export_text']
+    kw_local: Dict[str, str] = {}
+    for n in ast.walk(rd):
+        if isinstance(n, ast.If) and isinstance(n.test, ast.Compare) and len(n.test.ops) == 1 and isinstance(n.test.ops[0], ast.Eq) and isinstance(n.test.comparators[0], ast.Constant) \
+                and isinstance(n.test.comparators[0].value, str):
+            body = [b for b in n.body if not (isinstance(b, ast.Expr) and isinstance(b.value, ast.Call))]
+            if len(body) == 1 and isinstance(body[0], ast.Assign) and isinstance(body[0].value, ast.Constant) and body[0].value.value is True and isinstance(body[0].targets[0], ast.Name):
+                kw_local[n.test.comparators[0].value] = body[0].targets[0].id
+    local_field: Dict[str, str] = {}
+    for c in ast.walk(rd):
+        if isinstance(c, ast.Call):
+            for k in c.keywords:
+                if k.arg and isinstance(k.value, ast.Name) and k.value.id in kw_local.values():
+                    local_field[k.value.id] = k.arg
+    ctx.shape('C20.M2', len(kw_local) >= 3, mod, rd, f'{len(kw_local)} flag keywords (`key == "kw"` -> `local = True`) found in Event.parse_text (3 confirmed by hand)', func='Event.parse_text', text='choreo flag keywords')
+    me = wr.args.args[0].arg
+    for kw, loc in sorted(kw_local.items()):
+        field = local_field.get(loc)
+        if field is None:
+            ctx.shape('C20.M2', False, mod, rd, f'the local `{loc}` set by keyword {kw!r} is not handed to a constructor by name', func='Event.parse_text', text=f'choreo flag {kw}: field')
+            continue
+        writes = [c for c in ast.walk(wr) if isinstance(c, ast.Call) and isinstance(c.func, ast.Attribute) and c.func.attr == 'write' and c.args
+                  and any(isinstance(x, ast.Constant) and isinstance(x.value, str) and re.search(r'(^|\s)' + re.escape(kw) + r'\s*\n', x.value) for x in ast.walk(c.args[0]))]
+        if len(writes) != 1:
+            ctx.shape('C20.M2', False, mod, wr, f'{len(writes)} writes of the bare keyword {kw!r} in Event.export_text', func='Event.export_text', text=f'choreo flag {kw}: write')
+            continue
+        guard_fields: Set[str] = set()
+        ch, par = writes[0], mod.parents.get(writes[0])
+        while par is not None and par is not wr:
+            if isinstance(par, ast.If) and any(ch is b or any(ch is x for x in ast.walk(b)) for b in par.body):
+                guard_fields |= {x.attr for x in ast.walk(par.test) if isinstance(x, ast.Attribute) and isinstance(x.value, ast.Name) and x.value.id == me}
+            elif isinstance(par, ast.If):
+                guard_fields.add('<else-branch>')
+            ch, par = par, mod.parents.get(par)
+        extra = guard_fields - {field} - FLAG_EXTRA_GUARD.get(kw, set())
+        ctx.check('C20.M2', field in guard_fields and not extra, mod, writes[0], f'the keyword {kw!r} is read back as `{field} = True` on its own, but Event.export_text writes it only when {sorted(guard_fields)} allow: '
+                  + (f'an event with `{field}` set and {sorted(extra)} not satisfied is written without it and reads back with `{field}` False' if extra else f'its own field `{field}` is not what decides the write'),
+                  func='Event.export_text', text=f'choreo flag {kw} written iff {field}')
+
+
 def m2_choreo_text(ctx: Any, prog: Program) -> None:
     mod = prog.module('choreo')
     fold = Folder(prog, mod)
+    m2_choreo_flags(ctx, mod)
     # (writer class.method, reader class.method that consumes its lines, extra keywords the reader's caller handles)
     pairs = [
         ('Event', 'Event', {'event'}), ('Channel', 'Channel', {'channel'}), ('Actor', 'Actor', {'actor'}), ('Scene', 'Scene', set()),
@@ -1007,6 +1058,32 @@ def m2_sndscript(ctx: Any, prog: Program) -> None:
                     key = U(c.args[0].values[0]).strip("'\\t ") if c.args[0].values else '?'
                     ctx.check('C20.M2', inq or not multi, mod, c, f'`{U(v.value)}` can produce "low, high"; written outside quotes the comma becomes a token of its own and the file no longer parses',   # type: ignore[attr-defined]
                               func='Sound.export', text=f'range value quoted: {U(v.value)[:40]}')                                                                    # type: ignore[attr-defined]
+    # the numbers of a range are written so that split_float() reads the same float back: str()/repr() of a float is its shortest exact form;
+    # a fixed number of decimals (format_float, `:.3f`, round()) is not
+    jfn = mod.func('join_float')
+    mod_fns = {q: fl[0] for q, fl in mod.all_funcs().items() if '.' not in q}
+    scope_j = [jfn]
+    for f_ in list(scope_j):
+        for c in walk_no_nested(f_):
+            if isinstance(c, ast.Call) and isinstance(c.func, ast.Name) and c.func.id in mod_fns and mod_fns[c.func.id] not in scope_j:
+                scope_j.append(mod_fns[c.func.id])
+    lossy: List[ast.AST] = []
+    unknown_calls: List[ast.AST] = []
+    for f_ in scope_j:
+        for n in walk_no_nested(f_):
+            if isinstance(n, ast.FormattedValue) and n.format_spec is not None:
+                lossy.append(n)
+            if isinstance(n, ast.Call):
+                d_ = dotted(n.func) or ''
+                if d_.split('.')[-1] in ('format_float', 'round') or (isinstance(n.func, ast.Attribute) and n.func.attr == 'format' and isinstance(n.func.value, ast.Constant)):
+                    lossy.append(n)
+                elif isinstance(n.func, ast.Name) and n.func.id not in mod_fns and n.func.id not in ('str', 'repr', 'isinstance', 'float', 'int', 'len', 'tuple'):
+                    unknown_calls.append(n)
+            if isinstance(n, ast.BinOp) and isinstance(n.op, ast.Mod) and isinstance(n.left, ast.Constant) and isinstance(n.left.value, str):
+                lossy.append(n)
+    ctx.check('C20.M2', not lossy, mod, lossy[0] if lossy else jfn, f'join_float formats a number with `{U(lossy[0])[:50] if lossy else ""}`, a fixed number of decimals: volume 1/3 is written as 0.333333 and read back as a different float '
+              '(split_float(join_float(x)) != x)', func='join_float', text='range numbers written in exact form')
+    ctx.shape('C20.M2', not unknown_calls or bool(lossy), mod, unknown_calls[0] if unknown_calls else jfn, f'join_float converts through `{U(unknown_calls[0])[:40] if unknown_calls else ""}`, which is not followed', func='join_float', text='range number conversions followed')
     # keys
     written = {kw.casefold() for kw, _ in written_lines(exp)} - {'t'}
     read = set(re.findall(r"'([a-z_0-9]+)'", psrc)) | {'wave', 'rndwave'}
@@ -1356,6 +1433,9 @@ def m5_tables(ctx: Any, prog: Program) -> None:
 
 
 MUTANTS: List[Dict[str, Any]] = [
+    {'id': 'snd_range_six_decimals', 'file': 'sndscript.py', 'find': "        return f'{low!s}, {high!s}'", 'replace': "        return f'{low:.6f}, {high:.6f}'", 'expect': 'C20.M2'},
+    {'id': 'ok_snd_range_str_calls', 'file': 'sndscript.py', 'find': "        return f'{low!s}, {high!s}'", 'replace': "        return str(low) + ', ' + str(high)", 'expect': None},
+    {'id': 'gender_token_nested_under_combined', 'file': 'choreo.py', 'find': "            if self.use_gender_token:\n                file.write(f'{indent} cc_combinedusesgender\\n')", 'replace': "            if self.use_combined_file and self.use_gender_token:\n                file.write(f'{indent} cc_combinedusesgender\\n')", 'expect': 'C20.M2'},
     {'id': 'smd_remainder_link_added', 'file': 'smd.py', 'find': "                    if not links:\n                        # Okay, there's no links set here, use the first index.\n                        links = [(parent, 1.0)]\n", 'replace': "                    remainder = 1.0 - sum(weight for bone, weight in links)\n                    if remainder > 1e-4:\n                        links.append((parent, remainder))\n", 'expect': 'C20.M2'},
     {'id': 'particle_children_two_routes', 'file': 'particles.py', 'find': "            for child in part.children:\n                child_attr.append(name_to_elem[child.particle.casefold()])\n", 'replace': "            for child in part.children:\n                if child.particle.casefold() in name_to_elem:\n                    child_attr.append(name_to_elem[child.particle.casefold()])\n", 'expect': 'C20.M2'},
     {'id': 'ok_scenes_sort_short_lambda', 'file': 'choreo.py', 'find': "    scene_list.sort(key=lambda entry: entry.checksum)\n", 'replace': "    scene_list.sort(key=lambda e: e.checksum)\n", 'expect': None},
